@@ -249,7 +249,7 @@ def run_vox(case):
         got = float((dom > 0).sum()) * sp ** 3
         err = abs(got - vol)
         errs.append(err / vol)
-        if err > 3.0 * surf * sp * TOLX:
+        if not (err <= 3.0 * surf * sp * TOLX):
             return Outcome(failure("voxel_volume", "%s: voxel volume %.6g vs analytic %.6g at spacing %.4g (allowed %.4g)" % (d["k"], got, vol, sp, 3 * surf * sp), kind=d["k"]), True, [d["k"]])
     return Outcome(None, bool(errs), [d["k"]], metrics={"voxel_rel_err": max(errs) if errs else 0.0})
 
@@ -266,7 +266,9 @@ def strat_spheres(tier):
     return st.fixed_dictionaries({"mem": st.lists(mem, min_size=1, max_size=8), "exact": st.booleans(), "warn": st.booleans(),
                                   "scale": st.sampled_from([1.0, 0.5, 0.1, 1e-3, 7.0, 1e-7, 3e5]),
                                   "fraction": st.one_of(st.floats(0.0, 1.0), st.sampled_from([0.0, 0.1])),
-                                  "bad": st.sampled_from(["none", "none", "non_sphere_member", "add_non_sphere", "negative_radius", "scalar_center", "short_center"])})
+                                  "bad": st.sampled_from(["none", "none", "none", "non_sphere_member", "add_non_sphere", "negative_radius", "scalar_center", "short_center",
+                                                          "layered_negative_inner_radius", "layered_class_negative_thickness", "layered_class_short_center",
+                                                          "layered_class_scalar_center", "long_center"])})
 
 
 def run_spheres(case):
@@ -301,6 +303,19 @@ def run_spheres(case):
                 Sphere(n=1.5, r=-rs[0], center=tuple(cs[0]))
             elif bad == "scalar_center":
                 Sphere(n=1.5, r=rs[0], center=3.0)
+            elif bad == "long_center":
+                Sphere(n=1.5, r=rs[0], center=(1.0, 2.0, 3.0, 4.0))
+            elif bad == "layered_negative_inner_radius":
+                Sphere(n=(1.5, 1.6), r=(-0.5 * rs[0], rs[0]), center=tuple(cs[0]))
+            elif bad == "layered_class_negative_thickness":
+                from holopy.scattering import LayeredSphere
+                LayeredSphere(n=(1.5, 1.6), t=(-0.5 * rs[0], 2 * rs[0]), center=tuple(cs[0]))
+            elif bad == "layered_class_short_center":
+                from holopy.scattering import LayeredSphere
+                LayeredSphere(n=(1.5, 1.6), t=(0.5 * rs[0], rs[0]), center=(1.0, 2.0))
+            elif bad == "layered_class_scalar_center":
+                from holopy.scattering import LayeredSphere
+                LayeredSphere(n=(1.5, 1.6), t=(0.5 * rs[0], rs[0]), center=3.0)
             else:
                 Sphere(n=1.5, r=rs[0], center=(1.0, 2.0))
         except InvalidScatterer:
@@ -337,7 +352,7 @@ def run_spheres(case):
             return Outcome(failure("overlap_warning", "%d OverlapWarning(s) with warn=%s and %d overlapping pairs" % (nwarn, case["warn"], len(want_pairs))), True, labels)
     lo = S.largest_overlap()
     lscale = max(max(rs), max(abs(a) for c in cs for a in c))
-    if abs(lo - want_largest) > 1e-13 * lscale * TOLX:
+    if not (abs(lo - want_largest) <= 1e-13 * lscale * TOLX):
         return Outcome(failure("largest_overlap", "largest_overlap %r, expected max(sum radii - distance, 0) = %r" % (lo, want_largest)), True, labels)
     lim = LimitOverlaps(case["fraction"])
     thr = 2 * min(rs) * case["fraction"]
